@@ -62,8 +62,8 @@ class Sched(object):
     def yield_point(self, kind, info=None):
         """called by a controlled thread just before it performs the operation [kind]"""
         w = self.current()
-        if w is None:
-            return
+        if w is None or w.killed:
+            return                      # an abandoned thread unwinds (finally clauses, lock releases) without scheduling
         w.pending = (kind, info)
         self.back.release()
         w.go.acquire()
